@@ -68,6 +68,14 @@ Theorem C03_peep_b_rules_shrink_partial :
               (combine (seq 0 (List.length Gen.PeepTables.peep_b_rules)) Gen.PeepTables.peep_b_rules)) = [3; 55; 56].
 Proof. vm_compute. reflexivity. Qed.
 
+(* indent (formatter pass): whatever the formatter does to the text and whatever the verdicts, at most two transform calls *)
+Theorem C03_indent_terminates :
+  forall (changes : nat -> bool) verdict,
+  exists m, run (nat * nat) (fun ck b => match indent_step (changes (snd ck)) (fst ck) b with
+                                          | Some c' => Some (c', S (snd ck)) | None => None end)
+                3 verdict 0 (0, 0) = Some m /\ m <= 2.
+Proof. exact indent_terminates. Qed.
+
 (* includes (counter cursor): at most 2n+2 candidates for n include lines *)
 Theorem C03_includes_terminates :
   forall verdict n, exists m, run ccur includes_step (S (2 * n + 2)) verdict 0 (mkcc n 1) = Some m /\ m <= 2 * n + 2.
